@@ -387,7 +387,8 @@ def _base_record(job, u, sstore, r0, rrefs):
         "sstore": _objs(sstore), "srefs": _objs(set(_sender_refs(job).values())),
         "r0": _objs(r0), "rtips0": _objs(set(rrefs.values())), "r1": [], "rtips1": [], "runk": 0, "idbad": 0,
         "wants": [list(w) for w in job["wants"]], "forged": int(job.get("forged", 0)),
-        "inctag": int(bool(caps.get("inctag"))), "ok": 0, "cap": 0, "sent": [], "sunk": 0, "thin": [],
+        "inctag": int(bool(caps.get("inctag")) and job["op"] != "push" and job["transport"] not in ("local", "localpack")),
+        "mwants": [list(w) for w in job["wants"]], "ok": 0, "cap": 0, "sent": [], "sunk": 0, "thin": [],
         "hk": 0, "haves": [], "mode": _mode_of(caps), "srv": [], "cli": [], "rheads": sorted(job["rh"]), "miv": 256,
         "transport": job["transport"], "err": "", "info": {},
     }
@@ -455,8 +456,9 @@ def _finish_capture(rec, u, data):
     try:
         sent, sunk, thin, info = _parse_sent(u, data)
     except Exception as e:          # a pack the independent parser cannot read
-        rec["cap"], rec["sunk"] = 1, 1
         rec["info"]["pack_error"] = repr(e)[:200]
+        if rec["ok"]:               # accepted by the receiver although unreadable: let the judge see it
+            rec["cap"], rec["sunk"] = 1, 1
         return
     rec["cap"], rec["sent"], rec["sunk"], rec["thin"] = 1, _objs(sent), sunk, _objs(thin)
     rec["info"]["pack"] = {k: info[k] for k in ("n", "n_delta", "trailer_ok") if k in info}
@@ -770,7 +772,8 @@ def _push_with(client, job, u, spath, rpath, rec, path, capture_client=False):
     rec["srefs"] = rec["wants"]
     if "have" in seen:
         hk, _ = u.names(h.decode() for h in seen["have"])
-        rec["hk"], rec["haves"] = 1, _objs(hk)
+        wk, _ = u.names(w.decode() for w in seen["want"])
+        rec["hk"], rec["haves"], rec["mwants"] = 1, _objs(hk), _objs(wk)
     return raw.getvalue()
 
 
